@@ -14,7 +14,7 @@ func init() { registry["C05"] = propC05 }
 func propC05() *Property {
 	return &Property{
 		ID:          "C05",
-		Explanation: "Static typestate, dominance and error-discipline rules on the fetch path. Decided: (R1) every connection obtained from net/crypto/tls is given a deadline derived from time.Now() and the configured timeout before any Write, Read or hand-off to a reader, on every path, and the deadline is not renewed inside a loop; (R2) in jtp, client, object and pub no error result is dropped: every one is returned, wrapped, converted into a failure item, stored next to its value or classified with errors.Is, and the values that came with it are used only where it is known to be nil (or travel together with it); (R3) a body that fails to decode never becomes a document (shared with C03.R1); (R4) pub.NewFailure is never called with a possibly-nil error (it panics). (R5) the response head is parsed from complete lines only: every recogniser input is result #0 of ReadString('\\n') with the error known nil at the use (same rule as C03.R7), so a head that is cut off, stalls or is reset inside a line ends in an error. (R6) package-level state on the fetch path is written by initialisers only and shared documents are never updated in place (C08.R6 run here: two concurrent faults must not be able to crash the process); (R7) every acquisition on a channel that outlives the call is released on every path to every return of the function, error paths included. (R1, addition) every dial goes through a net.Dialer (or DialTimeout) whose Timeout is config.Parsed.Network.Timeout itself, so connecting and the handshake are bounded too. (R8) every index into the pieces of a split text is within the number of pieces known at that point (C06.K9 run here: a garbage status line must not crash the fetch). (R9) in package jtp no function makes two calls that reach the dialler on one path, nor one in a loop: one exchange per redirect hop (a retry wrapper would be re-entered by every hop and multiply). Not decided: actual wall-clock bounds, kernel/TLS behaviour, what happens for a non-positive configured timeout (C19 demands its validation).",
+		Explanation: "Static typestate, dominance and error-discipline rules on the fetch path. Decided: (R1) every connection obtained from net/crypto/tls is given a deadline derived from time.Now() and the configured timeout before any Write, Read or hand-off to a reader, on every path, and the deadline is not renewed inside a loop; (R2) in jtp, client, object and pub no error result is dropped: every one is returned, wrapped, converted into a failure item, stored next to its value or classified with errors.Is, and the values that came with it are used only where it is known to be nil (or travel together with it); (R3) a body that fails to decode never becomes a document (shared with C03.R1); (R4) pub.NewFailure is never called with a possibly-nil error (it panics). (R5) the response head is parsed from complete lines only: every recogniser input is result #0 of ReadString('\\n') with the error known nil at the use (same rule as C03.R7), so a head that is cut off, stalls or is reset inside a line ends in an error. (R6) package-level state on the fetch path is written by initialisers only and shared documents are never updated in place (C08.R6 run here: two concurrent faults must not be able to crash the process); (R7) every acquisition on a channel that outlives the call is released on every path to every return of the function, error paths included. (R1, addition) every dial goes through a net.Dialer (or DialTimeout) whose Timeout is config.Parsed.Network.Timeout itself, so connecting and the handshake are bounded too. (R8) every index into the pieces of a split text is within the number of pieces known at that point (C06.K9 run here: a garbage status line must not crash the fetch). (R9) in package jtp no function makes two calls that reach the dialler on one path, nor one in a loop: one exchange per redirect hop (a retry wrapper would be re-entered by every hop and multiply). (R13) every read of the response that is repeated in a loop has its error tested inside that loop. Not decided: actual wall-clock bounds, kernel/TLS behaviour, what happens for a non-positive configured timeout (C19 demands its validation).",
 		Assumptions: []string{
 			"net.Conn deadlines bound every subsequent Read/Write on the connection (library semantics)",
 			"encoding/json.Decoder reports an error for incomplete or trailing-garbage-free truncated objects",
@@ -29,6 +29,7 @@ func propC05() *Property {
 			{ID: "C05.R8", Title: "garbage in a response cannot index past the pieces it was split into", Floor: 0, Run: splitIndexing},
 			{ID: "C05.R7", Title: "whatever a fetch may block on is released on every path, the error paths included", Floor: 0, Run: c05R7},
 			{ID: "C05.R11", Title: "a response cut short is refused: what is accepted went through the whole acceptance path, the decoder's verdict included (same instances as C03.R1)", Floor: 15, Run: c03R1},
+			{ID: "C05.R13", Title: "a read that is repeated in a loop has its error tested inside that loop: a peer that stops sending ends the loop", Floor: 1, Run: c05R13},
 			{ID: "C05.R12", Title: "the timeout that bounds dial, handshake and exchange is the validated, positive, scaled setting (same instances as C19.R3)", Floor: 15, Run: c19R3},
 			{ID: "C05.R10", Title: "a flight is never joined from inside itself: nothing run by singleflight.Do reaches a Do on the same group", Floor: 1, Run: c05R10},
 			{ID: "C05.R9", Title: "one exchange per hop: no function of the fetcher dials twice on a path or in a loop", Floor: 1, Run: c05R9},
@@ -1178,5 +1179,129 @@ func c05R10(c *Ctx) {
 		}
 		c.check(again == "", fname+"/flight", P.InstrPos(s.call), fname, "nothing that runs inside this flight can join a flight of the same group",
 			"what runs inside singleflight.Do here can reach the Do on the same group at "+again+": when the key repeats (a redirect that leads back to a URL already being fetched) the fetch waits for itself, with no connection open and no deadline running")
+	}
+}
+
+// naturalLoops: for every back edge T -> H (H dominates T) the set of blocks of
+// the natural loop: H and everything that reaches T without passing through H.
+func naturalLoops(fn *ssa.Function) []map[*ssa.BasicBlock]bool {
+	var loops []map[*ssa.BasicBlock]bool
+	for _, h := range fn.Blocks {
+		for _, t := range h.Preds {
+			if !h.Dominates(t) {
+				continue
+			}
+			body := map[*ssa.BasicBlock]bool{h: true}
+			work := []*ssa.BasicBlock{t}
+			for len(work) > 0 {
+				b := work[len(work)-1]
+				work = work[:len(work)-1]
+				if body[b] {
+					continue
+				}
+				body[b] = true
+				work = append(work, b.Preds...)
+			}
+			loops = append(loops, body)
+		}
+	}
+	return loops
+}
+
+// c05R13: jtp reads the response line by line in loops. The deadline turns a
+// silent peer into a read error; the loop ends in a timely error only if that
+// error is looked at before the next trip. For every read of the connection's
+// reader inside a loop of package jtp: a test of its error result (err != nil,
+// err == nil, errors.Is) sits in a block of the innermost natural loop that
+// contains the read. A test after the loop (seed C05-1r13) is never reached
+// when the reads fail: ReadString keeps returning "" and the loop spins.
+func c05R13(c *Ctx) {
+	P := c.P
+	for _, fn := range P.FuncsIn("servitor/jtp") {
+		loops := naturalLoops(fn)
+		if len(loops) == 0 {
+			continue
+		}
+		fname := FuncName(fn)
+		eachInstr(fn, func(b *ssa.BasicBlock, _ int, in ssa.Instruction) {
+			call, ok := in.(*ssa.Call)
+			if !ok {
+				return
+			}
+			f := calleeObj(&call.Call)
+			if f == nil || f.Pkg() == nil {
+				return
+			}
+			switch f.Pkg().Path() {
+			case "bufio", "io", "net", "crypto/tls", "net/textproto", "encoding/json":
+			default:
+				return
+			}
+			if !strings.HasPrefix(f.Name(), "Read") && f.Name() != "Decode" && f.Name() != "Peek" && f.Name() != "Discard" {
+				return
+			}
+			e, _ := errorResult(call)
+			if e == nil {
+				return
+			}
+			// the innermost loop around the read
+			var inner map[*ssa.BasicBlock]bool
+			for _, l := range loops {
+				if l[b] && (inner == nil || len(l) < len(inner)) {
+					inner = l
+				}
+			}
+			if inner == nil {
+				return
+			}
+			// values that carry the error: the result itself, cells it is stored to, phis of it
+			carries := map[ssa.Value]bool{e: true}
+			var cells []ssa.Value
+			for _, r := range refs(e) {
+				switch x := r.(type) {
+				case *ssa.Store:
+					cells = append(cells, x.Addr)
+				case *ssa.Phi:
+					carries[x] = true
+				}
+			}
+			tested := false
+			for blk := range inner {
+				for _, bi := range blk.Instrs {
+					switch x := bi.(type) {
+					case *ssa.BinOp:
+						if x.Op != token.NEQ && x.Op != token.EQL {
+							continue
+						}
+						for _, side := range []ssa.Value{x.X, x.Y} {
+							if carries[side] {
+								tested = true
+							}
+							if ld, ok := side.(*ssa.UnOp); ok && ld.Op == token.MUL {
+								for _, cell := range cells {
+									if ld.X == cell {
+										tested = true
+									}
+								}
+							}
+						}
+					case *ssa.Call:
+						if isLibCall(&x.Call, "errors", "", "Is") || isLibCall(&x.Call, "errors", "", "As") {
+							if carries[unwrapLoad(x.Call.Args[0])] || carries[x.Call.Args[0]] {
+								tested = true
+							}
+						}
+					case *ssa.Return:
+						for _, rv := range x.Results {
+							if carries[rv] {
+								tested = true // handed to the caller from inside the loop
+							}
+						}
+					}
+				}
+			}
+			c.check(tested, fname+"/read-in-loop:"+f.Name(), P.InstrPos(in), fname, "the error of the repeated read is looked at inside the loop",
+				"the error of "+f.Name()+", which is called in a loop, is not tested inside that loop: when the peer stops sending (or the deadline passes) the read fails again and again and the loop never ends — no error, no document, the fetch hangs at full speed")
+		})
 	}
 }
